@@ -215,4 +215,27 @@ RECURSIVE BwdRun(_, _, _, _)
 BwdRun(m, obs, i, row) ==      \* row = beta_{T-i+1}; stops at beta_1
     IF i = Len(obs) THEN row ELSE BwdRun(m, obs, i + 1, BwdRow(m, row, obs[Len(obs) - i + 1]))
 MachineBackward(m, obs) == BwdFinal(m, BwdRun(m, obs, 1, BwdRow0(m)), obs[1])
+
+\* Tie-aware conformance of a reported Viterbi path with the Viterbi machine.  The code compares
+\* log-space sums in f64: candidates that are EXACTLY equal as rationals differ there in the last
+\* ulp (the order of the additions differs), so which of several exactly tied predecessors / final
+\* states wins is decided by rounding noise, not by the position (the deterministic last-wins rule
+\* of VitBest / VitLast, model-checked in HmmMC, is one such resolution).  The machine layer
+\* therefore admits every resolution of exact ties: the path must end in a state with the maximal
+\* final value, and every back pointer must be a predecessor attaining the maximal candidate.  The cell VALUES
+\* do not depend on how ties are resolved.
+\* Cells whose candidates are all zero involve no rounding (-inf compares exactly): there the
+\* deterministic choice of the machine (VitPred / VitLast) is THE choice.
+RECURSIVE BestInto(_, _, _, _, _)
+BestInto(m, prev, j, k, acc) ==        \* max over predecessors k of prev[k] * A[k][j]
+    IF k = m.s THEN acc ELSE BestInto(m, prev, j, k + 1, Max2(acc, prev[k + 1] * A(m, k, j)))
+VitConsistent(m, obs, path) ==
+    LET rows == VitRun(m, obs, 1, <<VitRow0(m, obs[1])>>, <<FromRow0(m)>>)[1]
+        T    == Len(obs)
+        lrow == EndRow(m, rows[T])
+        top  == Max({lrow[k] : k \in 1..m.s})
+    IN  /\ IF top > 0 THEN lrow[path[T] + 1] = top ELSE path[T] = VitLast(lrow)
+        /\ \A t \in 2..T :
+              LET j == path[t]  k == path[t - 1]  best == BestInto(m, rows[t - 1], j, 0, 0) IN
+              IF best > 0 THEN rows[t - 1][k + 1] * A(m, k, j) = best ELSE k = VitPred(m, rows[t - 1], j)
 =============================================================================
